@@ -52,7 +52,7 @@ pub fn search() -> String {
         if panicked {
             return format!("{{\"found\":true,\"input\":\"{}::read_from_buffer(0x{})\",\"observed\":\"panic while decoding peer bytes\",\"expected\":\"Ok or Err\"}}", ty, hex(&bytes));
         }
-        if maxreq > 64 * 1024 + bytes.len() * 64 {
+        if maxreq > 2 * 1024 * 1024 + bytes.len() * 64 {
             return format!("{{\"found\":true,\"input\":\"{}::read_from_buffer(0x{}) ({} bytes)\",\"observed\":\"a single allocation of {} bytes was requested\",\"expected\":\"allocation related to the input size\"}}", ty, hex(&bytes), bytes.len(), maxreq);
         }
         if bad_utf8 {
